@@ -942,7 +942,7 @@ pub fn run(args: &Args) {
         run_case(&mut cx, &c, false);
     }
     // 5. keyed histories on the trie store
-    for round in 0..(if args.thorough { 200 } else { 12 }) {
+    for round in 0..(if args.thorough { 400 } else { 80 }) {
         let spec = ["nlt_keyed:default", "nlt_keyed:perf", "nlt_keyed:mem", "nlt_keyed:sec"][round % 4];
         let c = gen_keyed(&mut rng, spec);
         run_case(&mut cx, &c, false);
